@@ -3,7 +3,8 @@
 // Observation: recdrv event log (statement events between two marks), the error
 // identity, RowsAffected and a full dump of both tables before/after.
 // Oracle: condition-free chain (AllowGlobalUpdate off) => zero statement events,
-// errors.Is(err, ErrMissingWhereClause), dump unchanged; chain with one effective
+// errors.Is(err, ErrMissingWhereClause), dump unchanged (association-mode Clear / Replace
+// on the chain value are finishers too); chain with one effective
 // condition (a condition call, an inline condition of Delete, or a model value /
 // deleted value with a wholly or partly set primary key) => never ErrMissingWhereClause.
 package c09
@@ -31,11 +32,21 @@ type CNote struct {
 	V         string
 }
 
+// CTeam is what every model belongs to: in association mode, Clear() / Replace() of a belongs-to relation is an
+// UpdateColumns on the OWNER table issued on the caller's own chain (db.Model(owner)...), so it is one more
+// finisher of the chain: an owner value without primary key and no condition in the chain must be refused.
+type CTeam struct {
+	ID   int64 `gorm:"primaryKey"`
+	Name string
+}
+
 type Plain struct {
-	ID    int64 `gorm:"primaryKey"`
-	A     int64
-	S     string
-	Notes []CNote `gorm:"polymorphic:Owner"`
+	ID     int64 `gorm:"primaryKey"`
+	A      int64
+	S      string
+	Notes  []CNote `gorm:"polymorphic:Owner"`
+	TeamID *int64
+	Team   *CTeam
 }
 
 type Soft struct {
@@ -44,6 +55,8 @@ type Soft struct {
 	S         string
 	DeletedAt gorm.DeletedAt
 	Notes     []CNote `gorm:"polymorphic:Owner"`
+	TeamID    *int64
+	Team      *CTeam
 }
 
 // Soft2 has two soft-delete columns: every one of them adds its own filter, none of
@@ -55,6 +68,8 @@ type Soft2 struct {
 	DeletedAt  gorm.DeletedAt
 	ArchivedAt gorm.DeletedAt
 	Notes      []CNote `gorm:"polymorphic:Owner"`
+	TeamID     *int64
+	Team       *CTeam
 }
 
 func (Soft2) TableName() string { return "soft2" }
@@ -62,11 +77,13 @@ func (Soft2) TableName() string { return "soft2" }
 // KPlain and KSoft have a composite primary key. A value whose key is only partly set ((1, ""), (0, "x")) is
 // still a model value WITH a primary key: the set part is the condition it supplies.
 type KPlain struct {
-	ID    int64  `gorm:"primaryKey;autoIncrement:false"`
-	Loc   string `gorm:"primaryKey"`
-	A     int64
-	S     string
-	Notes []CNote `gorm:"polymorphic:Owner"`
+	ID     int64  `gorm:"primaryKey;autoIncrement:false"`
+	Loc    string `gorm:"primaryKey"`
+	A      int64
+	S      string
+	Notes  []CNote `gorm:"polymorphic:Owner"`
+	TeamID *int64
+	Team   *CTeam
 }
 
 type KSoft struct {
@@ -76,6 +93,8 @@ type KSoft struct {
 	S         string
 	DeletedAt gorm.DeletedAt
 	Notes     []CNote `gorm:"polymorphic:Owner;foreignKey:OrderID"`
+	TeamID    *int64
+	Team      *CTeam
 }
 
 // keyPat is one way of giving a model value a primary key (for a composite key: which parts are set).
@@ -148,48 +167,61 @@ var pairs = [][2]int{{0, 0}, {0, 1}, {0, 2}, {1, 0}, {1, 1}, {1, 2}, {2, 0}, {2,
 type step struct {
 	name string
 	f    func(db *gorm.DB, m model) *gorm.DB
+	g    func(db, root *gorm.DB, m model) *gorm.DB // a step that builds a grouped condition from the ROOT handle
 }
 
 // condition-free chain calls
 var steps = []step{
-	{`Where("")`, func(db *gorm.DB, m model) *gorm.DB { return db.Where("") }},
-	{`Where(map[string]interface{}{})`, func(db *gorm.DB, m model) *gorm.DB { return db.Where(map[string]interface{}{}) }},
-	{`Where(map[string]string{})`, func(db *gorm.DB, m model) *gorm.DB { return db.Where(map[string]string{}) }},
-	{`Where(map[interface{}]interface{}{})`, func(db *gorm.DB, m model) *gorm.DB { return db.Where(map[interface{}]interface{}{}) }},
-	{`Where(M{})`, func(db *gorm.DB, m model) *gorm.DB { return db.Where(m.zeroVal()) }},
-	{`Where(&M{})`, func(db *gorm.DB, m model) *gorm.DB { return db.Where(m.zeroPtr()) }},
-	{`Where([]int64{})`, func(db *gorm.DB, m model) *gorm.DB { return db.Where([]int64{}) }},
-	{`Where([]string{})`, func(db *gorm.DB, m model) *gorm.DB { return db.Where([]string{}) }},
-	{`Not("")`, func(db *gorm.DB, m model) *gorm.DB { return db.Not("") }},
-	{`Not(map[string]interface{}{})`, func(db *gorm.DB, m model) *gorm.DB { return db.Not(map[string]interface{}{}) }},
-	{`Not(M{})`, func(db *gorm.DB, m model) *gorm.DB { return db.Not(m.zeroVal()) }},
-	{`Or("")`, func(db *gorm.DB, m model) *gorm.DB { return db.Or("") }},
-	{`Or(map[string]interface{}{})`, func(db *gorm.DB, m model) *gorm.DB { return db.Or(map[string]interface{}{}) }},
-	{`Or(&M{})`, func(db *gorm.DB, m model) *gorm.DB { return db.Or(m.zeroPtr()) }},
-	{`Clauses(clause.Where{})`, func(db *gorm.DB, m model) *gorm.DB { return db.Clauses(clause.Where{}) }},
+	{`Where("")`, func(db *gorm.DB, m model) *gorm.DB { return db.Where("") }, nil},
+	{`Where(map[string]interface{}{})`, func(db *gorm.DB, m model) *gorm.DB { return db.Where(map[string]interface{}{}) }, nil},
+	{`Where(map[string]string{})`, func(db *gorm.DB, m model) *gorm.DB { return db.Where(map[string]string{}) }, nil},
+	{`Where(map[interface{}]interface{}{})`, func(db *gorm.DB, m model) *gorm.DB { return db.Where(map[interface{}]interface{}{}) }, nil},
+	{`Where(M{})`, func(db *gorm.DB, m model) *gorm.DB { return db.Where(m.zeroVal()) }, nil},
+	{`Where(&M{})`, func(db *gorm.DB, m model) *gorm.DB { return db.Where(m.zeroPtr()) }, nil},
+	{`Where([]int64{})`, func(db *gorm.DB, m model) *gorm.DB { return db.Where([]int64{}) }, nil},
+	{`Where([]string{})`, func(db *gorm.DB, m model) *gorm.DB { return db.Where([]string{}) }, nil},
+	{`Not("")`, func(db *gorm.DB, m model) *gorm.DB { return db.Not("") }, nil},
+	{`Not(map[string]interface{}{})`, func(db *gorm.DB, m model) *gorm.DB { return db.Not(map[string]interface{}{}) }, nil},
+	{`Not(M{})`, func(db *gorm.DB, m model) *gorm.DB { return db.Not(m.zeroVal()) }, nil},
+	{`Or("")`, func(db *gorm.DB, m model) *gorm.DB { return db.Or("") }, nil},
+	{`Or(map[string]interface{}{})`, func(db *gorm.DB, m model) *gorm.DB { return db.Or(map[string]interface{}{}) }, nil},
+	{`Or(&M{})`, func(db *gorm.DB, m model) *gorm.DB { return db.Or(m.zeroPtr()) }, nil},
+	{`Clauses(clause.Where{})`, func(db *gorm.DB, m model) *gorm.DB { return db.Clauses(clause.Where{}) }, nil},
 	{`Clauses(clause.Where{Exprs: filters}) with an empty list`, func(db *gorm.DB, m model) *gorm.DB {
 		return db.Clauses(clause.Where{Exprs: []clause.Expression{}})
+	}, nil},
+	// a grouped condition built from a handle that carries no effective condition: an empty WHERE entry, only
+	// empty condition calls (no WHERE entry at all), a nested empty group next to a clause that is no condition
+	{name: `Where(db.Clauses(clause.Where{}))`, g: func(db, root *gorm.DB, m model) *gorm.DB {
+		return db.Where(root.Clauses(clause.Where{}))
 	}},
-	{`Order("id")`, func(db *gorm.DB, m model) *gorm.DB { return db.Order("id") }},
-	{`Limit(1)`, func(db *gorm.DB, m model) *gorm.DB { return db.Limit(1) }},
-	{`Offset(1)`, func(db *gorm.DB, m model) *gorm.DB { return db.Offset(1) }},
+	{name: `Or(db.Where("").Not(map[string]interface{}{}))`, g: func(db, root *gorm.DB, m model) *gorm.DB {
+		return db.Or(root.Where("").Not(map[string]interface{}{}))
+	}},
+	{name: `Not(db.Where(db.Clauses(clause.Where{Exprs: filters})).Order("id")) with an empty list`, g: func(db, root *gorm.DB, m model) *gorm.DB {
+		return db.Not(root.Where(root.Clauses(clause.Where{Exprs: []clause.Expression{}})).Order("id"))
+	}},
+	{`Order("id")`, func(db *gorm.DB, m model) *gorm.DB { return db.Order("id") }, nil},
+	{`Limit(1)`, func(db *gorm.DB, m model) *gorm.DB { return db.Limit(1) }, nil},
+	{`Offset(1)`, func(db *gorm.DB, m model) *gorm.DB { return db.Offset(1) }, nil},
 	{`Scopes(noop)`, func(db *gorm.DB, m model) *gorm.DB {
 		return db.Scopes(func(d *gorm.DB) *gorm.DB { return d })
-	}},
+	}, nil},
 	{`Scopes(Where(""))`, func(db *gorm.DB, m model) *gorm.DB {
 		return db.Scopes(func(d *gorm.DB) *gorm.DB { return d.Where("") })
-	}},
-	{`Unscoped()`, func(db *gorm.DB, m model) *gorm.DB { return db.Unscoped() }},
-	{`Select("s")`, func(db *gorm.DB, m model) *gorm.DB { return db.Select("s") }},
-	{`Omit("a")`, func(db *gorm.DB, m model) *gorm.DB { return db.Omit("a") }},
-	{`Table(t)`, func(db *gorm.DB, m model) *gorm.DB { return db.Table(m.table) }},
-	{`Model(&M{})`, func(db *gorm.DB, m model) *gorm.DB { return db.Model(m.zeroPtr()) }},
-	{`Session(&Session{})`, func(db *gorm.DB, m model) *gorm.DB { return db.Session(&gorm.Session{}) }},
-	{`WithContext(ctx)`, func(db *gorm.DB, m model) *gorm.DB { return db.WithContext(context.Background()) }},
-	{`Clauses(Locking)`, func(db *gorm.DB, m model) *gorm.DB { return db.Clauses(clause.Locking{Strength: "UPDATE"}) }},
-	{`Distinct()`, func(db *gorm.DB, m model) *gorm.DB { return db.Group("") }},
-	{`Debug()`, func(db *gorm.DB, m model) *gorm.DB { return db.Debug() }},
-	{`Session(&Session{DryRun:true})`, func(db *gorm.DB, m model) *gorm.DB { return db.Session(&gorm.Session{DryRun: true}) }},
+	}, nil},
+	{`Unscoped()`, func(db *gorm.DB, m model) *gorm.DB { return db.Unscoped() }, nil},
+	{`Select("s")`, func(db *gorm.DB, m model) *gorm.DB { return db.Select("s") }, nil},
+	{`Omit("a")`, func(db *gorm.DB, m model) *gorm.DB { return db.Omit("a") }, nil},
+	{`Table(t)`, func(db *gorm.DB, m model) *gorm.DB { return db.Table(m.table) }, nil},
+	{`Model(&M{})`, func(db *gorm.DB, m model) *gorm.DB { return db.Model(m.zeroPtr()) }, nil},
+	{`Model(&[]M{})`, func(db *gorm.DB, m model) *gorm.DB { return db.Model(m.emptySl()) }, nil},
+	{`Session(&Session{})`, func(db *gorm.DB, m model) *gorm.DB { return db.Session(&gorm.Session{}) }, nil},
+	{`WithContext(ctx)`, func(db *gorm.DB, m model) *gorm.DB { return db.WithContext(context.Background()) }, nil},
+	{`Clauses(Locking)`, func(db *gorm.DB, m model) *gorm.DB { return db.Clauses(clause.Locking{Strength: "UPDATE"}) }, nil},
+	{`Group("")`, func(db *gorm.DB, m model) *gorm.DB { return db.Group("") }, nil},
+	{`Debug()`, func(db *gorm.DB, m model) *gorm.DB { return db.Debug() }, nil},
+	{`Session(&Session{DryRun:true})`, func(db *gorm.DB, m model) *gorm.DB { return db.Session(&gorm.Session{DryRun: true}) }, nil},
 	// a read executed on the chain value, which is then used further (Count, then update; the idiom of
 	// paging code): whatever the read leaves on the statement is not a condition supplied by the chain.
 	// Model(&M{}) keeps the model value free of keys (a Find into structs would make the loaded rows the
@@ -198,12 +230,12 @@ var steps = []step{
 		var n int64
 		db.Model(m.zeroPtr()).Count(&n)
 		return db
-	}},
+	}, nil},
 	{`[Model(&M{}).Find(&maps) on this value, then]`, func(db *gorm.DB, m model) *gorm.DB {
 		var out []map[string]interface{}
 		db.Model(m.zeroPtr()).Find(&out)
 		return db
-	}},
+	}, nil},
 }
 
 // effective conditions (positive side). kind says where the condition enters the operation:
@@ -272,8 +304,13 @@ type finisher struct {
 	pre      string
 	shape    int // 0 &M{} | 1 &[]M{} | 2 &[]M{{},{}}
 	inline   []interface{}
-	inlineS  string // the literal inline conditions
+	inlineS  string                      // the literal inline conditions
 	inlineF  func(m model) []interface{} // inline conditions that depend on the model
+	// association mode: af runs the operation on the chain value (which carries the owner as Model());
+	// strict = the operation is an update of the OWNER table issued on the caller's own chain (belongs-to);
+	// otherwise the update / delete goes to the relation's table, selected by the owner's key
+	af     func(db *gorm.DB) error
+	strict bool
 }
 
 func upd(name string, f func(db *gorm.DB, m model) *gorm.DB) finisher {
@@ -305,6 +342,23 @@ var finishers = []finisher{
 	del(`Select("Notes").Delete(&M{})`, "Notes", 0, ""),
 	del(`Select(clause.Associations).Delete(&M{})`, clause.Associations, 0, ""),
 	del(`Select("Notes").Delete(&[]M{{},{}})`, "Notes", 2, ""),
+}
+
+// Association-mode operations that end in an update / delete: Clear() and Replace() without values. For a belongs-to
+// relation the update (foreign key = NULL) runs on the owner table with the caller's chain as it stands: a chain
+// without condition and an owner without key is a global update. For a has-many relation (here: polymorphic, so
+// that a constant owner_type filter is present) the rows of the relation are selected by the owner's key; without a key
+// there is nothing to select them with.
+func asc(name string, strict bool, af func(db *gorm.DB) error) finisher {
+	return finisher{name: name, needsMdl: true, af: af, strict: strict}
+}
+
+var assocFinishers = []finisher{
+	asc(`Association("Team").Clear()`, true, func(db *gorm.DB) error { return db.Association("Team").Clear() }),
+	asc(`Association("Team").Replace()`, true, func(db *gorm.DB) error { return db.Association("Team").Replace() }),
+	asc(`Association("Team").Unscoped().Clear()`, true, func(db *gorm.DB) error { return db.Association("Team").Unscoped().Clear() }),
+	asc(`Association("Notes").Clear()`, false, func(db *gorm.DB) error { return db.Association("Notes").Clear() }),
+	asc(`Association("Notes").Unscoped().Clear()`, false, func(db *gorm.DB) error { return db.Association("Notes").Unscoped().Clear() }),
 }
 
 // doDelete executes a delete finisher. k != nil hands a keyed value of the finisher's shape to Delete;
@@ -386,25 +440,26 @@ type env struct {
 
 var E *env
 
-var tables = []string{"plains", "softs", "soft2", "k_plains", "k_softs", "c_notes"}
+var tables = []string{"plains", "softs", "soft2", "k_plains", "k_softs", "c_notes", "c_teams"}
 
 const seedSQL = `
-DELETE FROM plains; DELETE FROM softs; DELETE FROM soft2; DELETE FROM k_plains; DELETE FROM k_softs; DELETE FROM c_notes;
+DELETE FROM plains; DELETE FROM softs; DELETE FROM soft2; DELETE FROM k_plains; DELETE FROM k_softs; DELETE FROM c_notes; DELETE FROM c_teams;
+INSERT INTO c_teams(id,name) VALUES (1,'red'),(2,'blue');
 INSERT INTO c_notes(id,owner_id,owner_type,v) VALUES (1,1,'plains','n1'),(2,2,'plains','n2'),(3,1,'softs','n3'),(4,2,'softs','n4'),(5,1,'soft2','n5'),(6,2,'soft2','n6'),
   (7,1,'k_plains','n7'),(8,2,'k_plains','n8'),(9,1,'k_softs','n9'),(10,2,'k_softs','n10');
-INSERT INTO soft2(id,a,s,deleted_at,archived_at) VALUES (1,1,'t1',NULL,NULL),(2,2,'t2',NULL,NULL),(3,1,'t3','2020-01-01 00:00:00',NULL),(4,2,'t4',NULL,'2020-01-01 00:00:00');
-INSERT INTO plains(id,a,s) VALUES (1,1,'p1'),(2,1,'p2'),(3,2,'p3'),(4,3,'p4');
-INSERT INTO softs(id,a,s,deleted_at) VALUES (1,1,'s1',NULL),(2,2,'s2',NULL),(3,1,'s3','2020-01-01 00:00:00'),(4,2,'s4','2020-01-01 00:00:00');
-INSERT INTO k_plains(id,loc,a,s) VALUES (1,'',1,'k1'),(1,'x',1,'k2'),(0,'x',2,'k3'),(2,'',2,'k4'),(2,'y',3,'k5');
-INSERT INTO k_softs(order_id,line_no,a,s,deleted_at) VALUES (1,0,1,'l1',NULL),(1,3,1,'l2',NULL),(0,3,2,'l3',NULL),(2,0,2,'l4',NULL),(2,1,3,'l5','2020-01-01 00:00:00');
+INSERT INTO soft2(id,a,s,deleted_at,archived_at,team_id) VALUES (1,1,'t1',NULL,NULL,1),(2,2,'t2',NULL,NULL,2),(3,1,'t3','2020-01-01 00:00:00',NULL,1),(4,2,'t4',NULL,'2020-01-01 00:00:00',NULL);
+INSERT INTO plains(id,a,s,team_id) VALUES (1,1,'p1',1),(2,1,'p2',2),(3,2,'p3',1),(4,3,'p4',NULL);
+INSERT INTO softs(id,a,s,deleted_at,team_id) VALUES (1,1,'s1',NULL,1),(2,2,'s2',NULL,2),(3,1,'s3','2020-01-01 00:00:00',1),(4,2,'s4','2020-01-01 00:00:00',NULL);
+INSERT INTO k_plains(id,loc,a,s,team_id) VALUES (1,'',1,'k1',1),(1,'x',1,'k2',2),(0,'x',2,'k3',1),(2,'',2,'k4',NULL),(2,'y',3,'k5',2);
+INSERT INTO k_softs(order_id,line_no,a,s,deleted_at,team_id) VALUES (1,0,1,'l1',NULL,1),(1,3,1,'l2',NULL,2),(0,3,2,'l3',NULL,1),(2,0,2,'l4',NULL,NULL),(2,1,3,'l5','2020-01-01 00:00:00',2);
 `
 
 func open(c *core.Ctx, agu bool) *vdb.Handle {
-	h, err := vdb.Open(vdb.Options{Config: gorm.Config{AllowGlobalUpdate: agu}})
+	h, err := vdb.Open(vdb.Options{Config: gorm.Config{AllowGlobalUpdate: agu, DisableForeignKeyConstraintWhenMigrating: true}})
 	if err != nil {
 		panic(err)
 	}
-	if err := h.DB.AutoMigrate(&Plain{}, &Soft{}, &Soft2{}, &KPlain{}, &KSoft{}, &CNote{}); err != nil {
+	if err := h.DB.AutoMigrate(&CTeam{}, &Plain{}, &Soft{}, &Soft2{}, &KPlain{}, &KSoft{}, &CNote{}); err != nil {
 		panic(err)
 	}
 	if _, err := h.SQL.Exec(seedSQL); err != nil {
@@ -456,7 +511,11 @@ func runOp(h *vdb.Handle, m model, chain []int, fin finisher, mode int, sessAGU 
 	}
 	self := p != nil && p.c.kind == updSelf
 	if fin.needsMdl {
-		if mode == 1 {
+		if mode == 1 && fin.af != nil {
+			// association mode needs a model value: the keyless one of this mode is the empty slice
+			db = db.Model(m.emptySl())
+			desc = append(desc, "Model(&[]M{})")
+		} else if mode == 1 {
 			db = db.Table(m.table)
 			desc = append(desc, "Table(t)")
 		} else if self {
@@ -481,7 +540,11 @@ func runOp(h *vdb.Handle, m model, chain []int, fin finisher, mode int, sessAGU 
 		if p != nil && p.c.kind == inChain && i == p.pos {
 			applyCond()
 		}
-		db = steps[s].f(db, m)
+		if steps[s].g != nil {
+			db = steps[s].g(db, root, m)
+		} else {
+			db = steps[s].f(db, m)
+		}
 		desc = append(desc, steps[s].name)
 		if db.Error != nil && stale == nil {
 			stale = db.Error
@@ -493,6 +556,9 @@ func runOp(h *vdb.Handle, m model, chain []int, fin finisher, mode int, sessAGU 
 	mark := h.Rec.Mark()
 	var res *gorm.DB
 	switch {
+	case fin.af != nil:
+		res = &gorm.DB{Error: fin.af(db)}
+		desc = append(desc, fin.name)
 	case fin.needsMdl && self:
 		res = fin.self(db, p.k.upd())
 		desc = append(desc, strings.Replace(fin.name, "(M{S:x})", "(&M{"+p.k.name+",S:x})", 1))
@@ -566,22 +632,27 @@ func stmtEvents(evs []recdrv.Event) []string {
 
 func run(c *core.Ctx) {
 	// first block: chains up to maxLen x finishers x single-key pairs; second block: chains up to length 2 x
-	// finishers x composite-key pairs (the chain calls do not take part in how a key is read off a value)
-	L, prs := maxLen(c.Tier), pairs[:nSingle]
+	// finishers x composite-key pairs (the chain calls do not take part in how a key is read off a value);
+	// third block: chains up to length 2 x association-mode finishers x all pairs
+	L, prs, fins := maxLen(c.Tier), pairs[:nSingle], finishers
 	i := c.Case
 	if first := nChains(L) * len(finishers) * nSingle; i >= first {
 		i -= first
 		L, prs = 2, pairs[nSingle:]
+		if second := nChains(2) * len(finishers) * len(prs); i >= second {
+			i -= second
+			prs, fins = pairs, assocFinishers
+		}
 	}
 	nc := nChains(L)
 	chainIdx := i % nc
 	i /= nc
-	fi := i % len(finishers)
-	i /= len(finishers)
+	fi := i % len(fins)
+	i /= len(fins)
 	pr := prs[i%len(prs)]
 	mode := pr[1]
 	chain := decodeChain(chainIdx)
-	fin, m := finishers[fi], models[pr[0]]
+	fin, m := fins[fi], models[pr[0]]
 	if !fin.needsMdl && mode >= 1 {
 		// Delete takes its model from the value; mode 1 would duplicate mode 0: use it for
 		// a decoy instead (an AllowGlobalUpdate session used first must not leak into the handle)
@@ -592,7 +663,19 @@ func run(c *core.Ctx) {
 	r, desc := runOp(E.h, m, chain, fin, mode, false, nil, true)
 	c.Logf("NEG %s", desc)
 	bad := []string{}
-	if r.stale != nil {
+	// the update of an association-mode operation assigns the foreign key only: with Select("s") in the chain
+	// nothing is left to assign and gorm returns before the guard (nothing to update is not an update without
+	// condition); the operations on the relation's table issue nothing at all for an owner without key. For both
+	// the demand is what the statement says of every such operation: no statement, no row changed.
+	strict := fin.af == nil || fin.strict
+	for _, st := range chain {
+		if fin.af != nil && steps[st].name == `Select("s")` {
+			strict = false
+		}
+	}
+	if !strict {
+		c.Inc("neg_association_mode_nothing_to_run")
+	} else if r.stale != nil {
 		// the chain value already carried an error: the finisher must report it and do nothing
 		c.Inc("neg_chain_value_with_earlier_error")
 		if r.err == nil {
@@ -620,8 +703,14 @@ func run(c *core.Ctx) {
 	if len(bad) > 0 {
 		c.Violation("neg:"+fin.name, map[string]interface{}{"chain": desc, "problems": bad})
 	} else {
-		c.Shape("neg", desc)
-		c.Inc("neg_rejected_without_statement")
+		if strict {
+			// (only then the guard demonstrably decided the case)
+			c.Shape("neg", desc)
+			c.Inc("neg_rejected_without_statement")
+			if fin.af != nil {
+				c.Inc("neg_rejected_without_statement_association_mode")
+			}
+		}
 		if len(r.events) > 0 {
 			c.Inc("neg_with_empty_tx")
 		}
@@ -659,9 +748,15 @@ func run(c *core.Ctx) {
 		c.Inc("pos_chain_value_with_earlier_error")
 	} else if errors.Is(pr2.err, gorm.ErrMissingWhereClause) {
 		c.Violation("pos:"+p.name(), map[string]interface{}{"chain": pdesc, "problems": []string{"rejected with ErrMissingWhereClause although a condition was given"}})
+	} else if pr2.err == nil && fin.af != nil && len(stmtEvents(pr2.events)) == 0 {
+		// (an operation on the relation's table with a condition in the chain but an owner without key: nothing to run)
+		c.Inc("pos_association_mode_nothing_to_run")
 	} else if pr2.err == nil {
 		c.Shape("pos", pdesc)
 		c.Inc("pos_executed")
+		if fin.af != nil {
+			c.Inc("pos_executed_association_mode")
+		}
 		if strings.Contains(p.c.name, "{key}") {
 			c.Inc("pos_executed_key_" + p.k.class)
 		}
@@ -695,14 +790,18 @@ func run(c *core.Ctx) {
 }
 
 func cases(tier string) int {
-	return nChains(maxLen(tier))*len(finishers)*nSingle + nChains(2)*len(finishers)*(len(pairs)-nSingle)
+	return nChains(maxLen(tier))*len(finishers)*nSingle + nChains(2)*len(finishers)*(len(pairs)-nSingle) +
+		nChains(2)*len(assocFinishers)*len(pairs)
 }
 
 var Engine = &core.Engine{
 	ID:    "C09",
 	Level: "exploration",
-	Rule: "enumeration of every chain of condition-free calls up to length 2 (quick) / 3 (thorough; 2 for the composite-key models) over 34 call forms (incl. Session, WithContext, Debug, a DryRun session, and a Count / Find executed on the chain value before it is used further) x 17 update/delete finishers (Delete with a keyless struct, empty slice, slice of keyless elements, empty inline conditions of every form, a relation selected along) " +
+	Rule: "enumeration of every chain of condition-free calls up to length 2 (quick) / 3 (thorough; 2 for the composite-key models and for association mode) over 38 call forms (incl. Session, WithContext, Debug, a DryRun session, a Count / Find executed on the chain value before it is used further, Model(&[]M{}) (empty slice as model value), " +
+		"and grouped conditions built from a handle that carries no effective condition: Where(db.Clauses(clause.Where{})), Or(db.Where(\"\").Not(map{})), Not(db.Where(db.Clauses(clause.Where{Exprs: empty})).Order(..)) (nested)) x 17 update/delete finishers (Delete with a keyless struct, empty slice, slice of keyless elements, empty inline conditions of every form, a relation selected along) " +
 		"x 13 (model, mode) pairs: {plain, soft-delete, two-soft-delete-column} x {Model(&M{}), Table(), Model(non-empty slice without keys)} and {composite-key plain (ID int64, Loc string), composite-key soft-delete (OrderID int64, LineNo int)} x {Model(&M{}), Model(slice without keys)}; " +
+		"plus 5 association-mode finishers x the same chains (length <= 2) x the 13 pairs (Table() replaced by Model(&[]M{})): every model belongs to a CTeam and has polymorphic CNotes; Association(Team).Clear() / .Replace() / .Unscoped().Clear() is an UpdateColumns(team_id = NULL) on the OWNER table issued on the caller's chain (demand as for every other finisher), " +
+		"Association(Notes).Clear() / .Unscoped().Clear() is an update / delete on the relation's table selected by the owner's key (demand for a keyless owner: no statement, no row changed); " +
 		"a case is non-trivial when the guard demonstrably decided it: the negative chain was rejected with ErrMissingWhereClause and zero statement events (shape = literal chain), " +
 		"or the same chain with ONE effective condition executed (shape = literal chain incl. condition). The condition is drawn from 28 forms: a Where/Not/Or/Scopes call of every argument form inserted at a random position (incl. a struct condition naming the key), " +
 		"a model value with a primary key given through Model() as struct, one-element slice or slice with a keyless element first, the value handed to Delete carrying the key (struct or slice, same shape as the finisher's value), " +
@@ -715,6 +814,10 @@ var Engine = &core.Engine{
 		"with AllowGlobalUpdate on (configuration, or a session placed first in the chain) the only demand is that the operation is not rejected with ErrMissingWhereClause, wherever Session / WithContext / Debug calls follow",
 		"a model value whose composite key is partly set counts as a value WITH a primary key (the statement's 'model value without primary key' is the all-zero key); the positive direction only demands that it is not rejected with ErrMissingWhereClause, not which rows the key selects (that is C10's subject)",
 		"Updates(&M{key,S}) as its own model is only used on chains without a Model(&M{}) call or a read step (those make the keyless Model() value the model); a key inside the value handed to Updates while Model() names another, keyless value is an assignment, not a condition, and is not generated",
+		"association mode: only Clear() and Replace() without values are generated (Append / Replace(values) / Delete(values) name target records, whose keys select rows; Delete(values) of a keyless owner is refused with ErrPrimaryKeyRequired, an error the statement does not speak of); relations: belongs-to and polymorphic has-many (has-one shares the has-many code path; many2many is not generated)",
+		"association mode, where gorm has nothing to run, only 'no statement, no row changed' is demanded and the error is not looked at: Clear() of the has-many relation for an owner without key (gorm issues nothing and returns nil), and Clear() of the belongs-to relation with Select(\"s\") in the chain (the foreign key is not among the selected columns, nothing is left to assign, gorm returns nil before the guard; same reading as for Table(t).Select(\"*\").Updates(map))",
+		"association mode needs a model value: Table() without Model() fails in Association() itself (no schema) and is replaced by Model(&[]M{})",
+		"Where(nil) / Not(nil) are not generated: nil is not among the empty forms the statement lists",
 		"table contents are compared for the negative direction only; after positive / AllowGlobalUpdate runs the seed rows are restored whenever a statement reached the driver",
 	},
 	Cases: cases,
